@@ -178,7 +178,12 @@ def c17_obligations():
                      detail="attribute _Client__quoted_expr missing")]
     src = pat.pattern
     core = src.split(b"\\s*")[0]            # the part that matches the quoted string itself
-    r = X.translate(core)
+    try:
+        r = X.translate(core)
+    except X.Unsupported as e:
+        # not decidable by this encoding: inconclusive (exit 3 unless the harness finds a concrete violation), never success
+        return [dict(name="C17 lemma: client quoted-string pattern %r covers RFC 5804 quoted strings" % core, status="unknown",
+                     seconds=0.0, detail="unsupported regex construct: %s" % e)]
     dq = z3.Re(z3.Unit(z3.CharVal(34)))
     plain = X.re_of_set(X.ALL - {34, 92, 0, 10, 13})
     esc = z3.Concat(z3.Re(z3.Unit(z3.CharVal(92))), X.re_of_set({34, 92}))
